@@ -420,6 +420,58 @@ func runC15(c *Ctx) {
 		}
 		c.R.Check("G-sendcache", "WriteMessage|hit keyed by hash and confirm variant", okServe, c.pos(w.Pos()), "a cached payload is looked up as blocksCache[block.Hash()][block.HaveConfirm]")
 	}
+	// ---- K-txcache: who fills and who empties the transaction cache of the unspent index
+	c.R.Rule("K-txcache", "the transaction cache behind GetTransaction is filled only while a block is connected (UnspentIndex.ConnectBlock) and when it is reloaded at start (TxCache.Deserialize): a reader never inserts what it found in the store; while a block is disconnected every one of its transactions is dropped from the cache (each completed iteration of UnspentIndex.DisconnectBlock over block.Transactions, other than the skipped asset registration, passes deleteTxn)")
+	if st := c.fn("blockchain/indexers", "TxCache", "setTxn"); st != nil {
+		var bad []string
+		n := 0
+		for g := range c.staticCallers(st) {
+			n++
+			switch fname(g) {
+			case "(*blockchain/indexers.UnspentIndex).ConnectBlock", "(*blockchain/indexers.TxCache).Deserialize":
+			default:
+				bad = append(bad, fname(g))
+			}
+		}
+		sort.Strings(bad)
+		c.R.Check("K-txcache", "setTxn|callers", n > 0 && len(bad) == 0, c.pos(st.Pos()), fmt.Sprintf("callers outside the connect / reload paths: %v", bad))
+	}
+	if db := c.fn("blockchain/indexers", "UnspentIndex", "DisconnectBlock"); db != nil {
+		del := callPred(R{"blockchain/indexers", "TxCache", "deleteTxn"})
+		// the drop of the disconnected transaction itself: the deleteTxn call in the outer loop over block.Transactions
+		for _, call := range ssau.CallsIn(db, del) {
+			hs := loopHeaders(call.Block())
+			if len(hs) != 1 || !loopRangesOver(hs[0], fieldIs("Block", "Transactions")) {
+				continue
+			}
+			H := hs[0]
+			cut := ssau.NewCut()
+			cut.AddInstr(call)
+			cut.AddInstr(H.Instrs[0])
+			// the only permitted skip: the asset registration transaction
+			for _, i := range ssau.Ifs(db) {
+				if m, arm := condCmp(func(v ssa.Value) bool { return methodCallNamed(ssau.Unwrap(v), "TxType") }, func(v ssa.Value) bool { _, ok := v.(*ssa.Const); return ok }, token.EQL, true)(i); m {
+					cut.AddEdge(i.Block(), ssau.Arm(i, arm))
+				}
+			}
+			var body *ssa.BasicBlock
+			for _, sx := range H.Succs {
+				if sx == call.Block() || sx.Dominates(call.Block()) {
+					body = sx
+				}
+			}
+			ok := body != nil
+			if ok {
+				r := ssau.ReachFromBlock(db, body, cut)
+				for _, p := range H.Preds {
+					if r.EdgeReachable(p, H) && (r.Block(p) || p == body) {
+						ok = false
+					}
+				}
+			}
+			c.R.Check("K-txcache", "DisconnectBlock|every disconnected transaction leaves the cache", ok, c.posOf(call), "an iteration over block.Transactions can complete without TxCache.deleteTxn(txn.Hash())")
+		}
+	}
 	// chain store decoded-block cache
 	if g := c.fn("blockchain", "ChainStoreFFLDB", "GetBlock"); g != nil {
 		c.boundedInsert("G-bound", "ChainStoreFFLDB.GetBlock|decoded-block cache", g, fieldIs("ChainStoreFFLDB", "blocksCache"), "blocksCache")
